@@ -1,7 +1,9 @@
 CONSTANTS
   Depth = 2
   AllVias = FALSE
+  LastAllVias = TRUE
   Prune = TRUE
   PruneLast = TRUE
+  Repr = TRUE
 SPECIFICATION Spec
 INVARIANT Emit
